@@ -25,7 +25,7 @@ LEVEL_TEXT = ("Analytic polar-stereographic grids (random pole, rotation, resolu
 LEVEL_NOTE = "Position error bound = 1.5*sqrt(tol)/sigma_min(J) with tol = 1e-7 (bilin_inv's stopping rule), J = local Jacobian in degrees per cell; trusts numpy/netCDF4 and the closed-form projection in the harness."
 RULE = ("cases: sample2d chunks (random fields/masks/positions/substitutes), roundtrip (one grid x subgrid x 2000 positions), e2e (lon/lat release + lon/lat output, sparse and dense). "
         "Non-trivial: positions within one cell of the rim of the valid region are present / masked or outside points present; distinct by grid parameters.")
-MANDATORY = ["positions_within_1e-9_of_a_masked_edge", "grid_longer_than_700_cells", "e2e_inactive_particles", "e2e_split_output_files", "post_sample2D", "roundtrip_positions", "longitudes_beyond_180", "rim_positions", "subgrid", "outside_value_zero", "outside_value_nan", "masked_corner",
+MANDATORY = ["e2e_lonlat_stored_packed", "positions_within_1e-9_of_a_masked_edge", "grid_longer_than_700_cells", "e2e_inactive_particles", "e2e_split_output_files", "post_sample2D", "roundtrip_positions", "longitudes_beyond_180", "rim_positions", "subgrid", "outside_value_zero", "outside_value_nan", "masked_corner",
              "all_masked", "outside_raises", "e2e_lonlat_release", "e2e_lonlat_output", "exact_bilinear_field", "fine_grid_below_250m", "e2e_fine_grid_below_250m"]
 ASSUMPTIONS = ["grids are conformal and smooth (polar stereographic) as the property quantifies; the branch cut of longitude is kept outside the grid"]
 TIMEOUT = {"quick": 600, "thorough": 3000}
@@ -342,6 +342,13 @@ def _case_e2e(case, wd, V, sit, cnt, keys):
                state=dict(instance_variables=dict(lon="float", lat="float"), default_values=dict(lon=0.0, lat=0.0)),
                ibm=dict(module=C.REC_IBM, deactivate={"1": [1, 3]}, log=False) if case["idx"] % 2 else {},
                output=dict(period=dt, layout=layout, numrec=[0, 2, 1][case["idx"] % 3], instance=dict(pid="i4", X="f8", Y="f8", Z="f8", lon="f8", lat="f8")))
+    lltol = 1e-9
+    if case["idx"] % 4 == 1:
+        # longitude/latitude stored packed (integers with a scale factor, as examples/killer/dense.yaml packs X)
+        run["output"]["instance"]["lon"] = dict(datatype="i4", scale_factor=1.0e-6)
+        run["output"]["instance"]["lat"] = dict(datatype="i4", scale_factor=1.0e-6)
+        lltol = 0.51e-6
+        _bump(sit, "e2e_lonlat_stored_packed")
     res, conf, world = run_scenario(dict(world=w, run=run), wd)
     desc = dict(grid=[imax, jmax], subgrid=sub, by_lonlat=bylonlat, layout=layout)
     if not res.ok:
@@ -377,7 +384,7 @@ def _case_e2e(case, wd, V, sit, cnt, keys):
         for k in range(len(r.pid)):
             x, y = float(r.vars["X"][k]), float(r.vars["Y"][k])
             wl, wa = bil(LON, x, y), bil(LAT, x, y)
-            if abs(r.vars["lon"][k] - wl) > 1e-9 or abs(r.vars["lat"][k] - wa) > 1e-9:
+            if abs(r.vars["lon"][k] - wl) > lltol or abs(r.vars["lat"][k] - wa) > lltol:
                 V.append(C.viol(f"record at {r.time}: pid {r.pid[k]} at ({x:.5f},{y:.5f}) has lon/lat ({r.vars['lon'][k]:.7f},{r.vars['lat'][k]:.7f}) in the file, "
                                 f"bilinear interpolation of lon_rho/lat_rho there is ({wl:.7f},{wa:.7f})", **desc))
                 break
